@@ -129,8 +129,7 @@ Proof.
   induction v using value_ind2; intro D.
   - (* integers *)
     pose proof (rt_dom_par _ D) as P. cbn [par_dom] in P. apply andb_true_iff in P. destruct P as [P1 P2].
-    apply Z.ltb_lt in P1. destruct z as [|q|q]; cbn [lit_tree eval_lit]; try reflexivity.
-    reflexivity.
+    apply Z.ltb_lt in P1. destruct z as [|q|q]; cbn [lit_tree eval_lit]; reflexivity.
   - unfold rt_dom in D. cbn [in_domain no_finite_float] in D.
     destruct f as [|[|]|]; try reflexivity. rewrite andb_false_r in D. discriminate.
   - destruct b; reflexivity.
@@ -164,10 +163,13 @@ Lemma tjoin_length_bound (sep : ptok) : forall (ls : list (list ptok)) (w : list
   Forall2 (fun toks n => (n <= 4 * List.length toks + 2)%nat) ls w ->
   (fold_right (fun n a => n + a) 0 w + 2 <= 4 * List.length (tjoin [sep] ls) + 4)%nat.
 Proof.
-  induction 1 as [|toks n ls' w' Hx Hr IH]; cbn [fold_right tjoin List.length]; [lia|].
+  induction 1 as [|toks n ls' w' Hx Hr IH]; [cbn; lia|].
   destruct Hr as [|toks2 n2 ls2 w2 Hx2 Hr2].
-  - cbn [fold_right]. lia.
-  - rewrite !app_length. cbn [List.length] in *. cbn [fold_right tjoin] in IH. lia.
+  - cbn [fold_right tjoin]. lia.
+  - change (tjoin [sep] (toks :: toks2 :: ls2)) with (toks ++ [sep] ++ tjoin [sep] (toks2 :: ls2)).
+    rewrite !app_length. cbn [List.length].
+    change (fold_right (fun n a => n + a) 0 (n :: n2 :: w2))%nat with (n + fold_right (fun n a => n + a) 0 (n2 :: w2))%nat.
+    lia.
 Qed.
 
 Lemma need_le_toks : forall v, par_dom v = true -> (need v <= 4 * List.length (vtoks v))%nat.
@@ -252,11 +254,11 @@ Definition line_tree (k : bytes) (v : value) : node :=
 Lemma parse_line k v f :
   par_dom v = true -> (need v + 8 <= f)%nat ->
   parse_program conv f token_EOF (ptk token_IDENT k :: t_assign :: vtoks v ++ [eof_ptok]) =
-  POk (mkPres [Some (line_tree k v)] [] false).
+  POk (mkPres (Some (line_tree k v) :: nil) nil false true).
 Proof.
   intros D Hf. unfold parse_program. change (mkPtok (mkTok token_EOF []) false false) with endt.
   rewrite init_state_two.
-  destruct f as [|[|[|[|[|f5]]]]]; try lia.
+  destruct f as [|[|[|[|[|[|f5]]]]]]; try lia.
   rewrite programLoop_S. rewrite !curIs_st_at.
   change (Z.eqb (pty (ptk token_IDENT k)) token_EOF || Z.eqb (pty (ptk token_IDENT k)) token_EOL)%bool with false. cbv iota.
   rewrite parseStatement_S. rewrite curIs_st_at. change (Z.eqb (pty (ptk token_IDENT k)) token_RETURN) with false. cbv iota.
@@ -277,7 +279,7 @@ Proof.
   change (Z.eqb (ttype (pk t_assign)) token_COLON) with false. cbn [andb].
   rewrite nextToken_st_at.
   (* the value *)
-  destruct (parses_stop conv conv_ints v (parse_value conv conv_ints v D) f5
+  destruct (parses_stop conv v (parse_value conv conv_ints v D) f5
               (curPrecedence (st_at (pk (ptk token_IDENT k)) (t_assign :: vtoks v ++ [eof_ptok]))) (pk t_assign) [eof_ptok])
     as [p1 [cl1 E1]]; [lia|reflexivity| |].
   { unfold stops, curPrecedence. rewrite cur_st_at. change (hd_ty [eof_ptok]) with token_EOF.
@@ -299,7 +301,7 @@ Proof.
   rewrite (lex_line k v Hk (rt_dom_lex v Hv)).
   change (end_type false) with token_EOF.
   rewrite parse_line; [|exact (rt_dom_par v Hv)|].
-  - cbn [clean pr_errs pr_cont negb pr_tree line_tree].
+  - unfold unterminated. cbn [clean pr_errs pr_cont pr_all_lexed negb andb orb pr_tree line_tree].
     change (Z.eqb (ttype (tok_of t_assign)) token_ASSIGN) with true. cbv iota.
     rewrite (eval_lit_tree v Hv). reflexivity.
   - pose proof (need_le_toks v (rt_dom_par v Hv)). unfold default_fuel. cbn [List.length]. rewrite app_length. cbn [List.length]. lia.
